@@ -2138,8 +2138,11 @@ static inline void
 bn_add_digit(bn_p bn, bn_digit_t n, bn_digit_t *carry) {
 	size_t digits;
 
-	if (NULL == bn || 0 == n)
+	if (NULL == bn || 0 == n) {
+		if (NULL != carry)
+			(*carry) = 0;
 		return;
+	}
 	digits = (bn->digits + 1);
 	bn_init_digits__int(bn, digits);
 	bn_digits_add_digit(bn->num, bn->count, n, carry);
@@ -2164,8 +2167,11 @@ static inline void
 bn_sub_digit(bn_p bn, bn_digit_t n, bn_digit_t *borrow) {
 	size_t digits;
 
-	if (NULL == bn || 0 == n)
+	if (NULL == bn || 0 == n) {
+		if (NULL != borrow)
+			(*borrow) = 0;
 		return;
+	}
 	digits = bn->digits;
 	if (0 == digits || (1 == digits && bn->num[0] < n)) {
 		digits = bn->count;
